@@ -146,3 +146,46 @@ def init (oa ob : Opts) (ra rb : List Nat) : PS :=
   { a := { opts := oa, rng := ra }, b := { opts := ob, rng := rb } }
 
 end Penguin.Pair
+
+namespace Penguin.Pair
+open Penguin.Mux
+
+/-! ### The stimulus level
+
+The correspondence harness drives each real endpoint one *stimulus* at a time — one application
+call, or one message moved from the wire into the endpoint — and then lets the connection task (and
+the pending `new_stream_channel` futures) run until nothing is left to do; that is `Mux.applyOp`
+(`opStep` followed by `settle`), the function the harness compares with the real code.  `stimL` is
+that step on the pair: the messages the endpoint hands to its sink go onto the wire.
+`Lemmas/PairSettle.lean` proves that every such stimulus is a run of the fine-grained actions above,
+so everything proved for all fine-grained runs holds for what the harness validates. -/
+
+/-- The messages handed to the sink, in order. -/
+def wiresOf : List Ev → List Msg
+  | [] => []
+  | .wire m :: rest => m :: wiresOf rest
+  | _ :: rest => wiresOf rest
+
+/-- The ghost update of an application call (what the application observed). -/
+def ghostOf (e : EP) (g : Ghost) (op : Mux.Op) (res : Res) : Ghost :=
+  match op, res with
+  | .write h d, .wrote _ => match e.handles[h]? with | some i => g.addW i d | none => g
+  | .read h _, .data bs => match e.handles[h]? with | some i => g.addR i bs | none => g
+  | .read h _, .eof => match e.handles[h]? with | some i => g.setEof i | none => g
+  | .dropStream h, _ => { g with dropped := h :: g.dropped }
+  | _, _ => g
+
+/-- One application-call stimulus at the left endpoint. -/
+def stimL (p : PS) (op : Mux.Op) : PS :=
+  let r := applyOp p.a op
+  { p with a := r.1, ab := p.ab ++ wiresOf r.2.2, ga := ghostOf p.a p.ga op r.2.1 }
+
+/-- One delivery stimulus at the left endpoint: the oldest message in transit is handed to it. -/
+def deliverL (p : PS) : Option PS :=
+  match p.ba with
+  | .frame f :: rest =>
+    let r := applyOp p.a (.deliver (.msg (.frame f)))
+    some { p with a := r.1, ba := rest, ab := p.ab ++ wiresOf r.2.2 }
+  | _ => none
+
+end Penguin.Pair
